@@ -74,7 +74,7 @@ Unrandom(c, pos) == LET v == c - (((149 * pos) % 253) + 1) IN IF v < 1 THEN v + 
 AsciiStep(st, it) ==     \* it = <<codeword, position>>
   LET c == it[1] IN
   IF ~st.ok THEN st
-  ELSE IF st.pad THEN (IF Unrandom(c, it[2]) = 129 THEN st ELSE [st EXCEPT !.ok = FALSE])
+  ELSE IF st.pad THEN (IF c \in 1..254 /\ Unrandom(c, it[2]) = 129 THEN st ELSE [st EXCEPT !.ok = FALSE])     \* (0 is not a codeword value)
   ELSE IF st.shift THEN [st EXCEPT !.out = Append(@, c - 1 + 128), !.shift = FALSE, !.ok = c \in 1..128]
   ELSE IF c = 129 THEN [st EXCEPT !.pad = TRUE]
   ELSE IF c \in 1..128 THEN [st EXCEPT !.out = Append(@, c - 1)]
